@@ -8,6 +8,7 @@ spellings."""
 import ast
 import io
 import os
+import sys
 import shutil
 import struct
 import warnings
@@ -380,12 +381,12 @@ def run(prop, tier):
                 for nm, mk in (("stdin", lambda: io.BytesIO(d)), ("stdin fed in bursts of %d bytes" % burst, lambda: io.BufferedReader(Bursty(d, burst), buffer_size=max(16, burst)))):
                     class FakeStdin:
                         buffer = mk()
-                    old = aio.sys.stdin
-                    aio.sys.stdin = FakeStdin
+                    old = sys.stdin
+                    sys.stdin = FakeStdin
                     try:
                         runs[nm] = impl_split(au, "-", cs)
                     finally:
-                        aio.sys.stdin = old
+                        sys.stdin = old
                 # alias spellings: short names, and both given with conflicting values (the long name must win)
                 base = dict(cs["params"])
                 short = dict(base, aw=cs["aw"], eth=cs["eth"], uc=cs["uc"], sr=rate, sw=w, ch=ch)
